@@ -556,7 +556,10 @@ class SBlock(Block):
                 f"Event type must be either a string or an EventType, but got {etype!r}")
         self.log_debug("got event %r, data: %s", etype, data)
         if self._event_active:
-            raise EdzedCircuitError(f"{self}: Forbidden recursive event() call")
+            # stop the simulation right here: a caller may catch the exception
+            exc = EdzedCircuitError(f"{self}: Forbidden recursive event() call")
+            self.circuit.abort(exc)
+            raise exc
         self._event_active = True
         try:
             while isinstance(etype, EventCond):
